@@ -1054,8 +1054,9 @@ fn group_of(label: &str) -> String {
 }
 
 fn select_proof<F: VF>(ctx: &mut Ctx) {
+  for with_lookups in [false, true] {
     for bsel in [false, true] {
-        let idp = format!("C20.S.recursion.select.proof.b{}", bsel as u8);
+        let idp = format!("C20.S.recursion.select.proof.{}b{}", if with_lookups { "lookups." } else { "" }, bsel as u8);
         ctx.guarded(&idp.clone(), SEL_FILES, |ctx| {
             if F::SYMBOLIC {
                 crate::reset();
@@ -1065,6 +1066,10 @@ fn select_proof<F: VF>(ctx: &mut Ctx) {
             // three public inputs so that the public-input selection is exercised as well (only
             // the shape of the virtual proof depends on it)
             cd.num_public_inputs = 3;
+            if with_lookups {
+                // the shape of a circuit with lookup tables: lookup openings at zeta and g*zeta
+                cd.num_lookup_polys = 3;
+            }
             let cap_height = cd.config.fri_config.cap_height;
             let mut cx = Cx::<F>::new();
             let p0t = cx.b.add_virtual_proof_with_pis(&cd);
@@ -1099,8 +1104,8 @@ fn select_proof<F: VF>(ctx: &mut Ctx) {
             let (want_p, want_v) = if bsel { (&p0, &v0) } else { (&p1, &v1) };
             let lv = flat_v::<F>(want_p);
             let bounds = format!(
-                "proof shape of the tiny circuit's common data with 3 public inputs ({} field elements per proof: caps, openings, 1 FRI query round, final polynomial, pow witness, public inputs); every element of both proofs / verifier data a distinct symbol, assigned by set_proof_with_pis_target / set_verifier_data_target; condition = {} (concrete); circuit {rows} rows",
-                n_proof, bsel
+                "proof shape of the tiny circuit's common data with 3 public inputs{} ({} field elements per proof: caps, openings, 1 FRI query round, final polynomial, pow witness, public inputs); every element of both proofs / verifier data a distinct symbol, assigned by set_proof_with_pis_target / set_verifier_data_target; condition = {} (concrete); circuit {rows} rows",
+                if with_lookups { " and 3 lookup polynomials (lookup openings at zeta and g*zeta)" } else { "" }, n_proof, bsel
             );
             // group the element-wise comparisons by field path
             let mut groups: Vec<(String, Vec<A>)> = vec![];
@@ -1161,6 +1166,7 @@ fn select_proof<F: VF>(ctx: &mut Ctx) {
             );
         });
     }
+  }
 }
 
 fn select_small<F: VF>(ctx: &mut Ctx) {
@@ -1317,6 +1323,7 @@ pub fn family<F: VF>(ctx: &mut Ctx) {
     select_proof::<F>(ctx);
     select_small::<F>(ctx);
     cyclic::<F>(ctx);
+    cyclic_wiring(ctx);
 }
 
 // ------------------------------------------------------------------------------------------
@@ -1469,4 +1476,80 @@ pub fn e2e_corruptions(ctx: &mut Ctx) {
             });
         }
     }
+}
+
+
+// ------------------------------------------------------------------------------------------
+// C20: wiring of the cyclic verifier. The circuit built by the real
+// `conditionally_verify_cyclic_proof_or_dummy` must copy-constrain every element of its OWN
+// verifier-data public inputs to the verifier data embedded in the inner cyclic proof's public
+// inputs (that is what makes every link of a chain use the same circuit). A fact about the
+// circuit graph (the builder's disjoint-set forest after `build`), independent of field values.
+// ------------------------------------------------------------------------------------------
+
+const CYCW_FILES: &[&str] = &[
+    "plonky2/src/recursion/cyclic_recursion.rs::CircuitBuilder::conditionally_verify_cyclic_proof",
+    "plonky2/src/recursion/cyclic_recursion.rs::CircuitBuilder::conditionally_verify_cyclic_proof_or_dummy",
+    "plonky2/src/plonk/circuit_builder.rs::CircuitBuilder::add_verifier_data_public_inputs",
+    "plonky2/src/plonk/circuit_data.rs::VerifierCircuitTarget::from_slice",
+    "plonky2/src/plonk/circuit_builder.rs::CircuitBuilder::build",
+];
+
+pub fn cyclic_wiring(ctx: &mut Ctx) {
+    use plonky2::gates::noop::NoopGate;
+    use plonky2::plonk::config::PoseidonGoldilocksConfig as C;
+    use plonky2_field::goldilocks_field::GoldilocksField as G;
+    if ctx.is_witness_run() {
+        return;
+    }
+    ctx.guarded("C20.S.recursion.cyclic.wiring", CYCW_FILES, |ctx| {
+        // the fixed-point common data, as in the library's own cyclic-recursion test
+        let config = CircuitConfig::standard_recursion_config();
+        let data = CircuitBuilder::<G, 2>::new(config.clone()).build::<C>();
+        let mut b = CircuitBuilder::<G, 2>::new(config.clone());
+        let proof = b.add_virtual_proof_with_pis(&data.common);
+        let vd = b.add_virtual_verifier_data(data.common.config.fri_config.cap_height);
+        b.verify_proof::<C>(&proof, &vd, &data.common);
+        let data = b.build::<C>();
+        let mut b = CircuitBuilder::<G, 2>::new(config.clone());
+        let proof = b.add_virtual_proof_with_pis(&data.common);
+        let vd = b.add_virtual_verifier_data(data.common.config.fri_config.cap_height);
+        b.verify_proof::<C>(&proof, &vd, &data.common);
+        while b.num_gates() < 1 << 12 {
+            b.add_gate(NoopGate, vec![]);
+        }
+        let mut common = b.build::<C>().common;
+
+        // the cyclic circuit: a counter plus its own verifier data as public inputs
+        let mut b = CircuitBuilder::<G, 2>::new(config);
+        let counter = b.add_virtual_public_input();
+        let _own_vd = b.add_verifier_data_public_inputs();
+        common.num_public_inputs = b.num_public_inputs();
+        let cond = b.add_virtual_bool_target_safe();
+        let inner = b.add_virtual_proof_with_pis(&common);
+        let one = b.one();
+        let prev = inner.public_inputs[0];
+        let next = b.mul_add(cond.target, prev, one);
+        b.connect(counter, next);
+        b.conditionally_verify_cyclic_proof_or_dummy::<C>(cond, &inner, &common).expect("cyclic verifier");
+        let n_own = b.num_public_inputs();
+        let cyc = b.build::<C>();
+        let fixed_point = cyc.common == common;
+        let k = 4 + 4 * common.config.fri_config.num_cap_elements();
+        let own = &cyc.prover_only.public_inputs[n_own - k..];
+        let emb = &inner.public_inputs[inner.public_inputs.len() - k..];
+        let (nw, deg) = (cyc.common.config.num_wires, cyc.common.degree());
+        let rep = |t: Target| cyc.prover_only.representative_map[t.index(nw, deg)];
+        let unconnected: Vec<usize> = (0..k).filter(|&i| rep(own[i]) != rep(emb[i])).collect();
+        // and nothing is connected crosswise (element i with element j != i)
+        let crossed = (0..k).any(|i| (0..k).any(|j| i != j && rep(own[i]) == rep(emb[j])));
+        ctx.add(
+            Ob::new("C20.S.recursion.cyclic.wiring.verifier-data", CYCW_FILES, format!("cyclic circuit (counter + own verifier data as public inputs, conditionally_verify_cyclic_proof_or_dummy) built with standard_recursion_config on the fixed-point common data (degree 2^{}); {k} verifier-data elements (digest + {} cap hashes)", cyc.common.degree_bits(), common.config.fri_config.num_cap_elements()))
+                .sample(format!("every element of the circuit's own verifier-data public inputs is in the same copy class as the corresponding trailing public input of the inner cyclic proof; not connected: {unconnected:?}"))
+                .goal(A::Bool(fixed_point))
+                .goal(A::Bool(unconnected.is_empty()))
+                .goal(A::Bool(!crossed))
+                .key("cyclic-verifier:verifier-data-not-bound-to-inner-proof"),
+        );
+    });
 }
